@@ -336,6 +336,15 @@ def st_dist(rs):
             d["with_rewind"] += any(l.startswith("R") for l in layers)
             d["with_wrapper"] += "W" in layers
             d["with_bridge"] += "B" in layers
+        elif t[1] == "prog":
+            k = int(t[2])
+            key = "prog_tls_lazy_handshake" if k == 6 else "prog_tls" if k == 7 else "prog_kernel" if k >= 4 else "prog_mem"
+            d[key] = d.get(key, 0) + 1
+            trs = t[t.index(";") + 1:len(t) - 1 - t[::-1].index(";")]
+            d["prog_server_speaks_first"] = d.get("prog_server_speaks_first", 0) + (trs[:1] != [] and trs[0].startswith("b"))
+            d["prog_transfer_larger_than_pipe"] = d.get("prog_transfer_larger_than_pipe", 0) + any(int(x[1:].split(".")[0]) > int(t[3]) for x in trs)
+            d["prog_with_close"] = d.get("prog_with_close", 0) + (t[-1] != "-")
+            continue
         else:
             d["pipe_kernel" if int(t[2]) >= 4 else "pipe_mem"] += 1
         ops = t[len(t) - 1 - t[::-1].index(";") + 1:]
@@ -583,12 +592,19 @@ PROPS = {
         "rule": "op sequences (read with capacity 0..64 and pre-filled buffers, write, vectored write, flush, shutdown) on run-time "
                 "composed stacks of the real adapters (client Stream, server Stream, TokioIo both directions, Rewind) over a scripted "
                 "inner io (short reads/writes, Pending, errors, EOF), and on real pipes (DuplexStream, Braid, client/server Stream, "
-                "bridged, unix socketpair, tcp loopback) with capacities 1..64, compared with the model and a reference FIFO; plus the "
+                "bridged, unix socketpair, tcp loopback) with capacities 1..64, compared with the model and a reference FIFO; one case in nine "
+                "is a pair of programs, one per side, run as two tasks to completion: 1-5 transfers of 1 B - 40 KB in either direction "
+                "(write in chunks of 1 B - 100 KB until everything is taken, flush; the other side reads with a buffer of 1 B - 100 KB until "
+                "it has everything), then either side or both shut down and the peer reads to the end - over the same pipes with capacities "
+                "1 B - 64 KiB and, half of them, over TLS on a DuplexStream (client Stream::tls with the handshake driven lazily by the "
+                "first operation - a read when the server speaks first - or finished beforehand; server Stream from the TLS acceptor), "
+                "compared with the same programs run on the pipe model; plus the "
                 "sniff stream for Rewind behind ReadVersion. non-trivial = at least 3 operations",
         "assumes": ["tokio::io::duplex semantics (bounded buffer, Pending when full/empty, EOF after shutdown) - modelled as Pipe, assumed",
                     "kernel sockets may deliver short reads: compared with the FIFO specification only",
                     "memory safety of the unsafe ReadBuf bookkeeping is not modelled (only byte counts and contents)",
-                    "TLS streams (rustls) are exercised by the C12 stream, not here"],
+                    "TLS: rustls/tokio-rustls record framing and buffering are not modelled - the TLS kinds are held to the pipe model's "
+                    "verdicts (everything written and flushed arrives, in order, then end-of-stream), which is what C18 promises of the wrapper"],
     },
     "C01": {
         "props_module": "HdModel.Props.C01",
@@ -723,8 +739,21 @@ PROPS = {
             {"name": "to", "quick": 6000, "thorough": 200000, "sep": None, "head": 5, "unit": 1,
              "nontrivial": to_nontrivial, "distribution": to_dist},
             dict(POOL_STREAM, quick=1500, thorough=50000),
+            {"name": "toc", "quick": 400, "thorough": 20000, "head": 5, "unit": 1, "batch": 5000,
+             "nontrivial": lambda r: len(r["input"].split()) > 7,
+             "distribution": lambda rs: {"cases": len(rs),
+                 "no_timeout": sum(r["input"].split()[1] == "-" for r in rs), "zero_timeout": sum(r["input"].split()[1] == "0" for r in rs),
+                 "via": {v: sum(r["input"].split()[2] == v for r in rs) for v in "012"},
+                 "redirects_followed": sum(r["input"].split()[3] != "0" for r in rs),
+                 "several_hops": sum(len(r["input"].split()) > 7 for r in rs),
+                 "timed_out": sum(r["obs"].startswith("timeout") for r in rs), "answered": sum(r["obs"].startswith("ok-") for r in rs)}},
         ],
-        "rule": "durations {0,1,5,10,20,50} x inner completion (never, 0, d-1, d, d+1, random) x result ok/err x poll schedules "
+        "rule": "toc: the timeout as Client::builder installs it - duration none/0/1/50/300/1000 ms handed over by with_timeout / "
+                "without_timeout, with_optional_timeout, or set and then set again; redirects not followed / standard policy / "
+                "Builder::default(); pool on/off - over in-memory connections to a real hyperdriver server answering 1-4 redirect hops "
+                "after scripted delays (0-400 ms each) under tokio's paused clock: outcome, virtual instant of resolution (the whole "
+                "request, redirects included, is bounded by one deadline armed when it was issued) and a probe request to the same "
+                "origin afterwards | durations {0,1,5,10,20,50} x inner completion (never, 0, d-1, d, d+1, random) x result ok/err x poll schedules "
                 "(executor polls at wake instants plus spurious polls; some inadequate/unsorted) on the public service::Timeout under "
                 "tokio's paused clock, polled by hand; observes result, instant, number of inner polls, inner dropped. "
                 "non-trivial = inner completes and >=2 polls",
@@ -771,16 +800,32 @@ PROPS = {
     "C20": {
         "props_module": "HdModel.Props.C20",
         "theorems": ["Hd.Sni.C20_decision", "Hd.Sni.C20_forward_only_if", "Hd.Sni.C20_match_forwarded",
-                     "Hd.Sni.C20_rejects", "Hd.Sni.C20_port_irrelevant"],
+                     "Hd.Sni.C20_rejects", "Hd.Sni.C20_port_irrelevant",
+                     "Hd.TlsInfo.C20_tls_request_never_told_plain", "Hd.TlsInfo.C20_holder_gets_info",
+                     "Hd.TlsInfo.C20_late_request_gets_info", "Hd.TlsInfo.step_spec"],
         "streams": [
             {"name": "sni", "quick": 6000, "thorough": 300000, "head": 8, "unit": 1,
              "nontrivial": sni_nontrivial, "distribution": sni_dist},
+            {"name": "tlsch", "quick": 3000, "thorough": 200000, "head": 2, "unit": 1, "batch": 50000,
+             "nontrivial": lambda r: "P" in r["obs"].split(),
+             "distribution": lambda rs: {"cases": len(rs), "plain_connection": sum(r["input"].split()[1] == "e" for r in rs),
+                 "asked_before_the_send": sum("P" in r["obs"].split() for r in rs),
+                 "several_waiting_at_the_send": sum(r["obs"].split()[:r["input"].split()[3:].index("s") if "s" in r["input"].split()[3:] else 0].count("P") >= 2 for r in rs),
+                 "cancelled_while_waiting": sum(any(o.startswith("d") for o in r["input"].split()[3:]) for r in rs),
+                 "told_info": sum(r["obs"].split().count("S") for r in rs), "told_none": sum(r["obs"].split().count("N") for r in rs)}},
         ],
         "rule": "requests from a grammar (HTTP/1.1|2, Host header / authority present or absent, 12 base names incl. IPv4/IPv6 "
                 "literals and punycode, 4 letter-case variants, ports, TLS info present/absent, server name present/absent/"
-                "different/differently cased) through the public ValidateSNI layer; non-trivial = TLS info present and a host named",
+                "different/differently cased) through the public ValidateSNI layer; non-trivial = TLS info present and a host named | tlsch: "
+                "how the TLS info gets to the requests - the crate-private channel between acceptor and connection service (hook "
+                "verif_hooks::tls_info): 1-5 requests call recv() on clones of the receiver, are polled one poll at a time or dropped, in "
+                "any order around the acceptor's send; then everybody still waiting is polled three rounds and a late request asks; "
+                "every poll's result (pending / the info / none) is compared with the model (state machine + tokio's fair RwLock); "
+                "one case in eight on the receiver of a connection without TLS",
         "assumes": ["http::uri::Authority parsing splits host and port (inputs are rendered host[:port]; the model receives them split)",
-                    "ASCII case folding: Rust eq_ignore_ascii_case = Lean String.toLower equality on ASCII host names"],
+                    "ASCII case folding: Rust eq_ignore_ascii_case = Lean String.toLower equality on ASCII host names",
+                    "tokio::sync::RwLock is a fair semaphore (FIFO waiters, released permits go to the queue first); a completed oneshot "
+                    "receiver resolves at its next poll (tokio's cooperative budget, which can make it yield once more, is not modelled)"],
     },
     "C16": {
         "props_module": "HdModel.Props.C16",
